@@ -240,12 +240,40 @@ class _BuildingNode(object):
         return self._variable
 
     def handle_token(self, sender, token):
+        # The DFS traversal is implemented with an explicit stack instead of
+        # recursive calls, otherwise building the pseudo-tree of a deep graph
+        # (e.g. a chain of a few hundred variables) hits python's recursion
+        # limit.
+        stack = []
+        frame = self._enter(sender, token)
+        if frame is not None:
+            stack.append(frame)
+        while stack:
+            node, node_token, index = stack[-1]
+            if index >= len(node._neighbors):
+                stack.pop()
+                continue
+            stack[-1][2] = index + 1
+            n = node._neighbors[index]
+            if n not in node._visited:
+                if n not in node.pseudo_parents:
+                    node.children.append(n)
+                frame = n._enter(node, node_token)
+                if frame is not None:
+                    stack.append(frame)
+
+    def _enter(self, sender, token):
+        """
+        Handle the token received from `sender`.
+
+        Returns a new frame [node, token, next neighbor index] if the token
+        must be propagated to the neighbors of this node, None otherwise.
+        """
         token = token[:]
         self._visited.append(sender)
         if sender is None:
             # root
             self.root = True
-            self._propagate(token)
 
         elif self.parent is None and not self.root:
             self.parent = sender
@@ -255,15 +283,14 @@ class _BuildingNode(object):
             self._neighbors.sort(
                 key=lambda x: x.count_neighbors_in_token(token), reverse=True
             )
-            self._propagate(token)
 
         else:
             if sender in self.children:
                 pass
             else:
                 self.pseudo_children.append(sender)
+            return None
 
-    def _propagate(self, token):
         token.append(self)
 
         # heuristic :
@@ -272,12 +299,7 @@ class _BuildingNode(object):
         self._neighbors.sort(
             key=lambda x: x.count_neighbors_in_token(token), reverse=True
         )
-
-        for n in self._neighbors:
-            if n not in self._visited:
-                if n not in self.pseudo_parents:
-                    self.children.append(n)
-                n.handle_token(self, token)
+        return [self, token, 0]
 
     def count_neighbors_in_token(self, token):
         """
@@ -370,12 +392,13 @@ def _visit_tree(root):
 
     :param root: the root node of the tree.
     """
-    yield root
-    for c in root.children:
-        # Using 'yield from would be nicer, but is only available with python
-        #  >= 3.3
-        for n in _visit_tree(c):
-            yield n
+    # Iterative traversal: nested generators would hit the recursion limit on
+    # deep trees.
+    stack = [root]
+    while stack:
+        node = stack.pop()
+        yield node
+        stack.extend(reversed(node.children))
 
 
 def tree_str_desc(root, indent_num=0):
